@@ -143,6 +143,14 @@ pub(crate) fn sched_point(name: &'static str) {
     }
 }
 
+/// Announces the schedule point `name` when it is dropped (also when the thread unwinds).
+pub(crate) struct SchedGuard(pub(crate) &'static str);
+impl Drop for SchedGuard {
+    fn drop(&mut self) {
+        sched_point(self.0);
+    }
+}
+
 /// An open log file whose `write` calls pass a file-system point first.
 pub(crate) struct FaultyFile {
     file: std::fs::File,
